@@ -123,6 +123,26 @@ def m_setmatches_iter(ex, callee, args):
     return IterV('setmatches', sm.data, 0)
 
 
+@model(r'^regex::SetMatches::(len|matched_any|matched|is_empty)$')
+def m_setmatches_misc(ex, callee, args):
+    """SetMatches by its documentation: len() is the number of *patterns in the set* (not of matches), matched_any()
+    whether some pattern matched, matched(i) whether pattern i did"""
+    sm = deref_all(args[0])
+    what = callee.rsplit('::', 1)[1]
+    if what == 'len':
+        return mk_int(len(sm.data), 'usize')
+    if what == 'is_empty':
+        return len(sm.data) == 0
+    if what == 'matched_any':
+        return b_or(*sm.data) if sm.data else False
+    i = deref_all(args[1])
+    if not isinstance(i.v, int):
+        raise Unsupported('SetMatches::matched with a symbolic index')
+    if i.v >= len(sm.data):
+        raise PanicEx(ex.frames[-1].fn.name, 'SetMatches::matched index out of range')
+    return sm.data[i.v]
+
+
 def _setmatches_next(ex, it):
     while it.pos < len(it.src):
         i = it.pos
